@@ -52,6 +52,25 @@ CHECKS.update({
    "runtime monitoring: differential execution Rust client vs C ABI under sanitizers, hand-transcribed layout decoder", "4/C17"),
 })
 
+CHECKS.update({
+ "C07": ("exploration",
+   "Chrony Tracking replies are built as wire bytes with chosen 32-bit patterns in the float fields (all exponents of the meaningful range x edge/random coefficients x both offset signs, sub-ns, near-integer-ns, realistic magnitudes, PHC bounds), deserialised by chrony-candm, processed by the real ShmUpdater on its own thread and published through the real ShmWriter; every published bound is judged by an exact rational evaluation of the README formula on the decoded wire values (Python fractions).",
+   "Chrony float layout transcribed independently; lower tolerance 2^-50 relative (f64 rounding), upper ceil(E)+1; |values| < 2^30 s.",
+   "runtime monitoring: wire-level input sweep through the real pipeline, exact-arithmetic reference oracle", "4/C07"),
+ "C08": ("exploration",
+   "All sequences up to length 3/4 over the 9 poll-outcome kinds plus random sequences up to length 60 are sent one message at a time to the real process_messages/ShmUpdater/FSM over a tee sink and the real ShmWriter; after each message: exactly one publication, generation +2, record equal to a 20-line reference model, read back through a fresh and an attached reader.",
+   "Expected bounds use dyadic wire values (exact in integers).",
+   "runtime monitoring: enumerated + random histories against an executable reference model", "4/C08"),
+ "C09": ("exploration",
+   "Every prefix of non-synchronised outcomes up to length 3/5 (and random longer ones), on a fresh daemon and on a daemon restarted over a previous incarnation's segment: each published record must say Unknown and a real client evaluated at uptimes from 1 s to 1e6 s must report Unknown.",
+   "Client evaluated under the interposed clock.",
+   "runtime monitoring: enumerated histories, invariant on published records and on client answers", "4/C09"),
+ "C10": ("exploration",
+   "All 65536 leap-status values, and every combination of interesting leap values x 9 update intervals x ages on both sides of 'now', of floor(8*interval) s and of the exact 8*interval threshold (+-1 ns) x 3 FSM start states, are classified by the real pipeline under a virtual SystemTime; oracle is the statement's table in exact arithmetic; the truncation sliver is accepted either way and counted.",
+   "Ages exact through the interposed CLOCK_REALTIME.",
+   "runtime monitoring: exhaustive (leap) and boundary-value sweep through the real pipeline, decision-table oracle", "4/C10"),
+})
+
 NOT_YET = {}
 
 
@@ -86,6 +105,7 @@ def main():
         },
         "engines": [
             {"name": "clientsim", "path": "harness/clientsim + harness/cdriver", "serves_properties": ["C05", "C06", "C14", "C16", "C17"], "kind_free_text": "vector sweeps through real writer/segment/client under an interposed clock; C driver against libclockbound with ASan/UBSan/valgrind"},
+            {"name": "daemonsim", "path": "harness/daemonsim", "serves_properties": ["C01", "C07", "C08", "C09", "C10", "C12", "C13"], "kind_free_text": "real process_messages/ShmUpdater/FSM and poller loop on their own threads over real channels, ShmWriter, readers and clients, under a per-thread virtual clock"},
             {"name": "shmsim", "path": "harness/shmsim", "serves_properties": ["C02", "C03", "C04", "C11", "C18"], "kind_free_text": "token scheduler over the hooked reader/writer, stop enumeration, sequential sweeps, Miri binary"},
         ],
         "checks": checks,
